@@ -1,11 +1,51 @@
 """C18 — a block root always maps to that block's slot (spec/Cache.tla)."""
 import json
 import os
+import re
 import vf
 
 PID = "C18"
 PKG = "./services/cache/standard"
 TEST = "TestVerifC18"
+
+
+def _own_overlay(pid):
+    """Overlay of this check: the shared files plus this property's drivers.  Drivers of other properties in
+    the controller's package are left out, so that work in progress on them cannot break this build."""
+    repl = {}
+    mine = re.compile(r"zz_verif_c18(_|\.)")
+    other = re.compile(r"zz_verif_[a-z0-9]+")
+    for root, _dirs, files in os.walk(vf.OVERLAY):
+        for f in files:
+            if f.endswith("~") or f.startswith("."):
+                continue
+            if f.endswith("_test.go") and other.match(f) and not mine.match(f):
+                continue
+            src = os.path.join(root, f)
+            rel = os.path.relpath(src, vf.OVERLAY)
+            dst = os.path.join(vf.REPO, rel)
+            if os.path.exists(dst):
+                raise vf.Broken("overlay file would replace an existing repository file: %s" % rel)
+            repl[dst] = src
+    p = os.path.join(vf.outdir(pid), "overlay.json")
+    tmp = "%s.%d" % (p, os.getpid())
+    with open(tmp, "w") as fh:
+        json.dump({"Replace": repl}, fh, indent=1)
+    os.replace(tmp, p)
+    return p
+
+
+vf.overlay_file = _own_overlay
+
+
+def ctl_driver(scenarios, tag):
+    # the same behaviours behind the controller's real event handlers (the cache's second writer)
+    return vf.run_driver(PID, "./services/controller/standard", "TestVerifC18Ctl", scenarios, "ctl-" + tag)
+
+
+def ctl_nontrivial(s, rows):
+    evs = [r.get("ev") for r in rows]
+    return "CtlBlockEvent" in evs or "CtlHeadEvent" in evs
 
 
 def driver(scenarios, tag):
@@ -14,7 +54,7 @@ def driver(scenarios, tag):
 
 def sig_of(s):
     evs = [st["ev"] + (":" + st.get("fetch", "") if st["ev"] == "Lookup" else "") for st in s["steps"]]
-    return {"has_miss_ok": "Lookup:ok" in evs}
+    return {"has_miss_ok": "Lookup:ok" in evs, "has_head": "HeadEvent" in evs}
 
 
 def nontrivial(s, rows):
@@ -26,8 +66,17 @@ def nontrivial(s, rows):
 def scenarios(tier):
     n = 150 if tier == "quick" else 3000
     hs = vf.tlc_scenarios(PID, "Scen_Cache", "Scen_Cache.cfg", num=n, depth=14)
-    cap = 400 if tier == "quick" else 6000
-    return [{"sc": i + 1, "steps": h} for i, h in enumerate(hs[:cap])]
+    # TLC's simulator evaluates Emit on every successor of the last state: a walk arrives as a family of
+    # behaviours that differ in their last step only.  Keep a few of each family so that the batch is spread
+    # over the walks rather than filled by the first ones.
+    fam, out = {}, []
+    for h in hs:
+        k = json.dumps(h[:-1], sort_keys=True)
+        fam[k] = fam.get(k, 0) + 1
+        if fam[k] <= 3:
+            out.append(h)
+    cap = 500 if tier == "quick" else 9000
+    return [{"sc": i + 1, "steps": h} for i, h in enumerate(out[:cap])]
 
 
 def conc_driver(scenarios, tag):
@@ -69,10 +118,18 @@ def run(tier):
     v.assumptions = ["Env_TruthfulNode: block events and headers carry the block's real slot",
                      "beacon node, clock and scheduler are scripted fakes at the service's interfaces"]
     v.add_mc(vf.tlc_exhaustive(PID, "Cache", "MC_Cache.cfg"))
+    # vacuity self-check: the control design that files a head's parent under head slot - 1 (right whenever no
+    # slot was skipped) must be rejected by TLC
+    r = vf.tlc(PID, "mc-dev-ParentAtPrevSlot", "Cache", "MC_Cache_dev_ParentAtPrevSlot.cfg", workers=4, timeout=300)
+    if r["ok"] or "MapSound" not in str(r["violated"]):
+        raise vf.Broken("control design ParentAtPrevSlot was not rejected by TLC (MapSound): %s %s" % (r["kind"], r["violated"]))
     if tier == "thorough":
         v.add_mc(vf.tlc_exhaustive(PID, "Cache", "MC_Cache_big.cfg", coverage=True))
     sc = scenarios(tier)
     vf.conformance(v, sc, driver, "Trace_Cache", "Trace_Cache.cfg", sig_of, nontrivial)
+    ctl = [x for x in sc if any(st["ev"] in ("CtlBlockEvent", "CtlHeadEvent") for st in x["steps"])]
+    ctl = [dict(x, sc=200000 + i) for i, x in enumerate(ctl[:150 if tier == "quick" else 3000])]
+    vf.conformance(v, ctl, ctl_driver, "Trace_Cache", "Trace_Cache.cfg", sig_of, ctl_nontrivial)
     vf.conformance(v, conc_scenarios(tier, 100000), conc_driver, "Trace_CacheConc", "Trace_CacheConc.cfg",
                    conc_sig, conc_nontrivial, dfs=True)
     v.coverage["rule"] = ("behaviours of Cache.tla generated by TLC simulation (seeded), replayed on the real "
@@ -86,7 +143,9 @@ def replay(path):
     v = vf.Verdict(PID, "quick")
     with open(os.path.join(path, "scenario.json")) as fh:
         s = json.load(fh)
-    if "events" in s:
+    if s.get("sc", 0) >= 200000:
+        vf.conformance(v, [s], ctl_driver, "Trace_Cache", "Trace_Cache.cfg", sig_of, ctl_nontrivial)
+    elif "events" in s:
         vf.conformance(v, [s], conc_driver, "Trace_CacheConc", "Trace_CacheConc.cfg", conc_sig, conc_nontrivial, dfs=True)
     else:
         vf.conformance(v, [s], driver, "Trace_Cache", "Trace_Cache.cfg", sig_of, nontrivial)
